@@ -36,6 +36,9 @@ func c10(c *Ctx) {
 	c10R7(c)
 	ruleSandboxExited(c, "C10.R9")
 	c10R10(c)
+	c10R11(c)
+	// an interface is collected as leaked only against a complete list of the records (shared rule)
+	c11R7(c)
 	ruleCASPublication(c, "C10.R8", "PodENI", map[string]string{
 		"Status.PodLastSeen": "a timestamp; the latest writer winning is the intent",
 		"Labels":             "node label follows the pod; no transition is decided on it",
@@ -692,4 +695,71 @@ func c10R10(c *Ctx) {
 			"must-pass: g.Wait() → receive from the collector → return", "path: "+p.describePath(w))
 	}
 	c.Floor("C10.R10", "stores to Spec.Allocations in createENI", 1, n)
+}
+
+// R11: a refused cloud call is not forgotten. In the helpers that tear the
+// interfaces of a record down, once DetachNetworkInterface / DeleteNetworkInterface
+// returned an error the helper reports failure: followed through copies of the
+// error, every exit reached with that error non-nil returns a non-nil error (a
+// later successful call must not reset it — the finalizer would be removed and
+// the record vanish while the refused interface still exists).
+func c10R11(c *Ctx) {
+	p := c.P
+	c.Rule("C10.R11", "teardown helpers report a refused cloud call: with the error of DetachNetworkInterface / DeleteNetworkInterface non-nil, every exit of detachMemberENI / deleteMemberENI returns a non-nil error (no later success overwrites it)")
+	n := 0
+	for _, name := range []string{"ReconcilePodENI.deleteMemberENI", "ReconcilePodENI.detachMemberENI"} {
+		fn := p.Func(podENICtlPkg, name)
+		if fn == nil {
+			c.Unres("C10.R11", name, "not found")
+			continue
+		}
+		info := fn.Info()
+		sig := fn.Obj.Type().(*types.Signature)
+		ei := errResultIndex(sig)
+		if ei < 0 {
+			continue
+		}
+		var errVars []types.Object
+		seenE := map[types.Object]bool{}
+		ast.Inspect(fn.Decl, func(k ast.Node) bool {
+			if id, ok := k.(*ast.Ident); ok {
+				if v, ok := info.ObjectOf(id).(*types.Var); ok && !v.IsField() && !seenE[v] && v.Type().String() == "error" && len(errVars) < 12 {
+					seenE[v] = true
+					errVars = append(errVars, v)
+				}
+			}
+			return true
+		})
+		for _, cs := range p.CallsIn(fn) {
+			if cs.Callee == nil || cs.Lit != nil || (cs.Callee.Name() != "DeleteNetworkInterface" && cs.Callee.Name() != "DetachNetworkInterface") {
+				continue
+			}
+			as, lhs := assignedFromCall(fn, cs.Call)
+			if as == nil || len(lhs) == 0 || lhs[len(lhs)-1] == nil {
+				c.Bad("C10.R11", name+": the cloud call's error is bound", p.Pos(cs.Call), fn.Key(), "err = …", "discarded")
+				continue
+			}
+			n++
+			errObj := lhs[len(lhs)-1]
+			q := NewPathQuery(p, fn, nil)
+			q.TrackNils = errVars
+			q.StartNil = map[types.Object]int{errObj: nilNo}
+			q.ExitState = func(ret *ast.ReturnStmt, st int) bool {
+				var x types.Object
+				switch {
+				case len(ret.Results) == 0:
+					x = sig.Results().At(ei)
+				case len(ret.Results) == sig.Results().Len():
+					if nonNilProducer(info, ret.Results[ei]) {
+						return true
+					}
+					x = identObj(info, ret.Results[ei])
+				}
+				return x != nil && q.nilStateOf(x, st) == nilNo
+			}
+			w := q.Escapes(isExactly(as), nil, nil, nil)
+			c.Check(w == nil, "C10.R11", name+": a refused "+cs.Callee.Name()+" makes the helper fail", p.Pos(cs.Call), fn.Key(), "with err != nil after the call every exit returns a non-nil error", "path to an exit that can report success: "+p.describePath(w))
+		}
+	}
+	c.Floor("C10.R11", "cloud teardown calls in the helpers", 2, n)
 }
